@@ -56,6 +56,10 @@ def check(ck):
         _deprecation_and_hiding(ck, repo)
     with ck.rule("R5"):
         _sdl_assembly(ck, repo)
+    with ck.rule("R6"):
+        # "for any valid SDL the engine builds": the covariance clauses a valid implementation relies on
+        from .c12 import interface_field_type_table
+        interface_field_type_table(ck, repo, side="accept")
 
 
 # ---------------------------------------------------------------------------
@@ -455,19 +459,7 @@ def _deprecation_and_hiding(ck, repo):
         ok = len(comp) == 1 and unparse(comp[0].generators[0].iter) == f"{par}.{coll}" and [unparse(i) for i in comp[0].generators[0].ifs] == [f"not {unparse(comp[0].generators[0].target)}.isDeprecated"] \
             and unparse(comp[0].elt) == unparse(comp[0].generators[0].target)
         ck.ob(f"{fn}: the filter keeps exactly the elements that are not deprecated", ok, f, comp[0] if comp else f.node, construct=f"{fn}:filter")
-    t = repo.func("tartiflette/schema/introspection.py", "__type_resolver")
-    tv = FuncView(t)
-    ft = tv.maybe_call("find_type")
-    h = [hh for _, hh in tv.try_handlers_around(ft)] if ft is not None else []
-    rets = tv.returns()
-    ok = ft is not None and [unparse(a) for a in ft.args] == [f"{t.positional_params[1]}['name']"] and any("KeyError" in (unparse(hh.type) if hh.type else "") for hh in h) and \
-        unparse(rets[-1].value) == "None"
-    ck.ob("__type(name:) looks the name up in the schema's type table and answers null for an unknown name", ok, t, ft or t.node, construct="__type:lookup")
-    for fn in ("__type_resolver", "__schema_resolver"):
-        f = repo.func("tartiflette/schema/introspection.py", fn)
-        rs = FuncView(f).raises()
-        ok = len(rs) == 1 and any(tt == f"{f.positional_params[3]}.schema.is_introspectable" and o == "F" for tt, o in FuncView(f).conditions(rs[0]))
-        ck.ob(f"{fn}: a non-introspectable schema refuses introspection", ok, f, rs[0] if rs else f.node, construct=f"{fn}:refuses")
+    _introspection_roots(ck, repo, "refuses")
     ni = repo.cls("tartiflette/directive/builtins/non_introspectable.py", "NonIntrospectableDirective")
     oi = ni.methods.get("on_introspection")
     r = FuncView(oi).returns() if oi else []
@@ -518,16 +510,7 @@ def _deprecation_and_hiding(ck, repo):
         unparse(g_.args[0].value.elt).startswith(f"execute_introspection_directive({unparse(g_.args[0].value.generators[0].target)}, ")
     ck.ob("introspection_directives_executor: every item of a list goes through its own hooks, results in list order", ok and comp and unparse(comp[0].generators[0].iter) == "results" and
           unparse(comp[0].elt) == unparse(comp[0].generators[0].target), x, g_ or x.node, construct="hidden:list-items")
-    for fn, retv in (("__schema_resolver", "{info}.schema"), ("__type_resolver", "{info}.schema.find_type({args}['name'])")):
-        f_ = repo.func("tartiflette/schema/introspection.py", fn)
-        f_v = FuncView(f_)
-        info_, args_ = f_.positional_params[3], f_.positional_params[1]
-        want = retv.format(info=info_, args=args_)
-        rr = [r_ for r_ in f_v.returns() if unparse(r_.value) == want]
-        flag = [n for n in walk_no_nested(f_.node) if isinstance(n, ast.Assign) and unparse(n.targets[0]) == f"{info_}.is_introspection" and unparse(n.value) == "True"]
-        ok = len(rr) == 1 and (f"{info_}.schema.is_introspectable", "T") in f_v.conditions(rr[0]) and len(flag) == 1 and f_v.dominated_by(rr[0], flag[0])
-        ck.ob(f"{fn}: answers from this request's schema and opens the introspection context first (so that hiding applies below it)", ok, f_, rr[0] if rr else f_.node,
-              construct=f"{fn}:answers")
+    _introspection_roots(ck, repo, "answers")
     f = repo.func("tartiflette/resolver/factory.py", "resolve_field_value_or_error")
     fv = FuncView(f)
     c = fv.maybe_call("introspection_directives_executor")
@@ -626,3 +609,60 @@ def _sdl_assembly(ck, repo):
     h = [hh for hh in ev.handlers()]
     ck.ob("a built-in is skipped only when the user already registered an implementation of the same name", len(h) == 1 and unparse(h[0].type) == "ImproperlyConfigured", e,
           h[0] if h else e.node, construct="sdl:builtins-skip")
+
+
+def _introspection_roots(ck, repo, part):
+    """Path-outcome tables of the two introspection root resolvers (helpers inlined, failures of the lookup followed):
+    refuses  - every path on which the schema is not introspectable leaves by raising a TartifletteError built there, having touched nothing;
+    answers  - every other path opens the introspection context and answers this request's schema / the named type of it, null for an unknown name."""
+    from ..pathtab import outcome_rows, truth
+    from ..q import inlined_view
+    for fn, retv in (("__schema_resolver", "{info}.schema"), ("__type_resolver", "{info}.schema.find_type({args}['name'])")):
+        f = repo.func("tartiflette/schema/introspection.py", fn)
+        fv = inlined_view(repo, f)
+        info_, args_ = f.positional_params[3], f.positional_params[1]
+        want = retv.format(info=info_, args=args_)
+        lookups = [fv.stmt_of(c) for c in fv.calls("find_type")]
+        rows = outcome_rows(fv, raising_stmts=lookups)
+        if len(rows) < 2:
+            raise AnalysisError(f"{fn}: expected at least a refusing and an answering path")
+        flag = f"@{info_}.is_introspection"
+        seen = {"refuse": 0, "answer": 0, "unknown": 0}
+        for r in rows:
+            open_ = truth(r, f"{info_}.schema.is_introspectable")
+            where = r["last"] or f.node
+            stores = {k: (unparse(v) if isinstance(v, ast.AST) else v) for k, v in r["sym"].items() if isinstance(k, str) and k.startswith("@")}
+            if open_ == "F":
+                seen["refuse"] += 1
+                if part == "refuses":
+                    last = r["last"]
+                    built = isinstance(last, ast.Raise) and isinstance(last.exc, ast.Call) and callee_last(last.exc) == "TartifletteError"
+                    ck.ob(f"{fn}: a non-introspectable schema refuses introspection", r["exit"] == "raise_exit" and built and not stores, f, where, construct=f"{fn}:refuses",
+                          detail=f"exit={r['exit']} stores={stores}")
+                continue
+            if open_ != "T":
+                ck.ob(f"{fn}: every path asks whether the schema may be introspected", False, f, where, construct=f"{fn}:refuses", detail=str(r["conds"]))
+                continue
+            if r["exit"] == "raise_exit":
+                # the lookup failed with something its handlers do not name: a KeyError must be among those they do
+                around = [unparse(hh.type) if hh.type else "" for c in fv.calls("find_type") for _, hh in fv.try_handlers_around(c)]
+                if part == "answers":
+                    ck.ob("__type(name:) answers null for an unknown name", fn == "__schema_resolver" or any("KeyError" in a or a in ("", "Exception") for a in around), f, where,
+                          construct="__type:lookup", detail="a KeyError of find_type leaves the resolver: `__type(name: ...)` of an unknown name becomes an error instead of null")
+                continue
+            caught = [unparse(h.type) if h.type else "" for h in r["handlers"]]
+            if caught:
+                seen["unknown"] += 1
+                if part != "answers":
+                    continue
+                ck.ob("__type(name:) answers null for an unknown name (and only a failed lookup does)", all("KeyError" in c for c in caught) and isinstance(r["ret"], ast.Constant) and r["ret"].value is None,
+                      f, where, construct="__type:lookup", detail=f"handlers {caught}, returns {unparse(r['ret']) if r['ret'] is not None else None}")
+                continue
+            seen["answer"] += 1
+            if part != "answers":
+                continue
+            ok = r["ret"] is not None and unparse(r["ret"]) == want and stores.get(flag) == "True"
+            ck.ob(f"{fn}: answers from this request's schema and opens the introspection context first (so that hiding applies below it)", ok, f, where, construct=f"{fn}:answers",
+                  detail=f"returns {unparse(r['ret']) if r['ret'] is not None else None}, stores {stores}")
+        ck.ob(f"{fn}: has a refusing and an answering path", seen["refuse"] >= 1 and seen["answer"] >= 1 and (fn == "__schema_resolver" or seen["unknown"] >= 1), f, f.node,
+              construct=f"{fn}:paths", detail=str(seen))
